@@ -1,6 +1,7 @@
 import Mdns.Lemmas.Sched
 import Mdns.Lemmas.ClientTimers
 import Mdns.Lemmas.ResponderTimersIter
+import Mdns.Lemmas.ResponderTimersSpin
 import Mdns.Props.C17
 /-
   C12  The daemon wakes itself for all time-driven work and never spins.
@@ -465,6 +466,50 @@ theorem announcement_repeat_armed (now j : Nat) (i : MyIntf) (acc : State × Lis
       simp only [hp] at h
       exact absurd h hnew
 
+/-! #### never spinning -/
+
+/-- **An iteration that has nothing to do goes back to sleep.**  A running daemon whose timers
+    cover its work is woken at `now` without a datagram and without a command, and no work is due
+    (every due instant lies after `now`): the iteration sends nothing and reports nothing, and
+    every timer it leaves - hence the wake-up it requests - lies after `now`.  (A spurious wake-up
+    costs one iteration; it is not answered with another request for `now`.) -/
+theorem idle_iteration_sleeps (s : State) (now j : Nat) (hrun : s.stopped = false) (hc : RTimersCover s)
+    (hnodue : ∀ d, RDue s d → now < d) :
+    (iter s (idle now j)).2 = [] ∧ ∀ t ∈ (iter s (idle now j)).1.timers, now < t := by
+  have hidle : ∀ i ∈ s.intfs, AllIdle now (s.registry i.index) :=
+    fun i hi e he => hnodue _ (Or.inl ⟨i, hi, e, he, rfl⟩)
+  have hre : ∀ r ∈ s.reruns, now < r.next := fun r hr => hnodue _ (Or.inr (Or.inl ⟨r, hr, rfl⟩))
+  refine ⟨idle_nothing_due_outs s now j hrun hidle hre, ?_⟩
+  apply idle_quiet_timers s now j hrun
+  refine ⟨hc.drained, fun i hi => (hidle i hi).noExp, hre, ?_⟩
+  by_cases h0 : s.nextIpCheck = 0
+  · exact Or.inl h0
+  · exact Or.inr (hnodue _ (Or.inr (Or.inr ⟨h0, rfl⟩)))
+
+/-- **The responder never spins.**  Take ANY state and ANY iteration at `now` (any datagrams, any
+    commands) that does not stop the daemon.  However often the daemon is then run again at the
+    same instant without new input - at least once, any jitters - every timer afterwards lies
+    after `now`: one further iteration at most has something to do at that instant (the first
+    query of a probe created with jitter 0; consuming a stale `new_timers` entry), and then the
+    requested wake-up lies in the future.  In particular the interface check never re-arms at
+    `now` (interval 0 switches it off: repair of D12), a probe never asks for its own instant
+    twice, and a re-run is never queued for `now`. -/
+theorem responder_no_spin (s : State) (inp : Input) (hrun : (iter s inp).1.stopped = false) (j : Nat) (js : List Nat) :
+    ∀ t ∈ (run (iter s inp).1 ((j :: js).map (idle inp.now))).1.timers, inp.now < t :=
+  idleRun_quiet_timers inp.now js j _ hrun (iter_quiet s inp hrun)
+
+/-- ... in terms of the requested wake-up -/
+theorem responder_no_spin_wake (s : State) (inp : Input) (hrun : (iter s inp).1.stopped = false) (j : Nat) (js : List Nat)
+    (w : Nat) (hw : wake (run (iter s inp).1 ((j :: js).map (idle inp.now))).1 = some w) : inp.now < w := by
+  unfold wake at hw
+  exact responder_no_spin s inp hrun j js w (List.min?_eq_some_iff.mp hw).1
+
+/-- what is left for the instant of an iteration (`Quiet`): only first queries of probes - no
+    probe ends, no re-run and no interface check is due, no `new_timers` wait - after ANY
+    iteration from ANY state -/
+theorem after_iteration_quiet (s : State) (inp : Input) (hrun : (iter s inp).1.stopped = false) :
+    Quiet inp.now (iter s inp).1 := iter_quiet s inp hrun
+
 /-! ### non-vacuity -/
 
 /-- the wake-up requested after each iteration of a history -/
@@ -533,6 +578,14 @@ example :
       [{ now := 1000000, jitter := 7, cmds := [.register web] }, idleAt 1000007, { now := 1000100, jitter := 7, rx := [rival] },
        idleAt 1000257, idleAt 1001100, idleAt 1001350] =
     [some 1000007, some 1000257, some 1000257, some 1001100, some 1001350, some 1001600] := by decide +kernel
+
+/-- JITTER 0: the probes are created for `now`, their first query leaves in the iteration of the
+    registration itself, and the daemon asks once more for `now` (the armed `new_timers` entry);
+    the next iteration at that instant has nothing to do and asks for `now + 250` -/
+example :
+    wakeTrace (init 1000000 [eth0])
+      [{ now := 1000000, jitter := 0, cmds := [.register web] }, { now := 1000000, jitter := 0 }, { now := 1000250, jitter := 0 }] =
+    [some 1000000, some 1000250, some 1000500] := by decide +kernel
 
 end ResponderModel
 
